@@ -5,9 +5,11 @@ PID = "C10"
 
 def check(tier, seed):
     q = tier == "quick"
-    return G.generic_check(PID, "exploration", tier, seed, coq=False,
-        rule="shuffling games (reversible officer/king moves, moves taken back, castling-rights changes, irreversible moves in between) from corpus positions and random placements: CheckRepetitions(1..3) vs the count of earlier positions of the game with the same placement/side/rights/ep field, half-move clock vs plies since the last capture/pawn move (continuing from the FEN value); all 7056 material signatures with up to 3 pieces per side from {N, light B, dark B, R, Q, P} vs the property's must-be-true / must-be-false classes; a case = one position of a game or one signature",
-        streams=[dict(name='draw_monitor', kind="monitor", shards=lambda t: 2 if t == "quick" else 16,
+    return G.generic_check(PID, "proof", tier, seed, coq=True,
+        rule="obligations: theorems of coq/properties/C10.v over PosImpl.v; correspondence: operation sequences on the real Position vs PosImpl.run_ops evaluated inside Coq, 105 observables (incl. key, piece sets, material, psq sums, game phase, check cache, repetition 1-3, insufficient material) after every operation (pos-cases); monitor: shuffling games (reversible officer/king moves, moves taken back, castling-rights changes, irreversible moves in between) from corpus positions and random placements: CheckRepetitions(1..3) vs the count of earlier positions of the game with the same placement/side/rights/ep field, half-move clock vs plies since the last capture/pawn move (continuing from the FEN value); all 7056 material signatures with up to 3 pieces per side from {N, light B, dark B, R, Q, P} vs the property's must-be-true / must-be-false classes; a case = one position of a game or one signature",
+        streams=[dict(name="position_model_vs_engine", kind="coqprint", shards=lambda t: 4 if t == "quick" else 16,
+                      args=lambda t, s, sh, path: ["pos-cases", 14 if t == "quick" else 60, s * 1000 + 700 + sh, path], coq_timeout=3000),
+                 dict(name='draw_monitor', kind="monitor", shards=lambda t: 2 if t == "quick" else 16,
                       args=lambda t, s, sh, path: ['c10-monitor', 6000 if t == "quick" else 200000, s * 1000 + sh])])
 
 
